@@ -161,7 +161,20 @@ func oracleC16(f *sessionFam, w *World, res *Result) []Violation {
 			binaryBody := strings.HasPrefix(ctype, "application/octet-stream")
 			ps, err := decodeNoJSONP(eioOf(sp), binaryBody, payload)
 			if err != nil {
-				l.add("payload-decodes", "", fmt.Sprintf("%s [%s]: poll response #%d does not decode as a revision-%d payload: %v (%q)", a, rctx, r.ID, eioOf(sp), err, clip(string(payload), 60)))
+				dctx := ""
+				if eioOf(sp) == 3 && binaryBody && ci < len(cycles) {
+					// discriminator for a defect of the parser dependency: revision-3 binary-form payload (a batch with a
+					// binary packet) that also carries a text packet with non-ASCII characters
+					for _, pk := range cycles[ci].pk {
+						if strings.HasPrefix(pk, "message|t:") && !isASCII(pk) {
+							dctx = "v3-binary-payload-form/non-ascii-text"
+						}
+					}
+				}
+				if ci < len(cycles) {
+					ci++ // this response was that batch, however it came out
+				}
+				l.add("payload-decodes", dctx, fmt.Sprintf("%s [%s]: poll response #%d does not decode as a revision-%d payload: %v (%q)", a, rctx, r.ID, eioOf(sp), err, clip(string(payload), 60)))
 				continue
 			}
 			if !binaryBody && !strings.HasPrefix(ctype, "text/") && !strings.Contains(ctype, "javascript") {
@@ -416,4 +429,13 @@ func corsModel(c *CorsSpec, origin string) (allowed, depends bool) {
 		return false, true
 	}
 	return false, true
+}
+
+func isASCII(s string) bool {
+	for i := 0; i < len(s); i++ {
+		if s[i] >= 0x80 {
+			return false
+		}
+	}
+	return true
 }
